@@ -26,33 +26,33 @@ CHECKS = {
  "C18": dict(
    engine="adtsim",
    technique="deterministic simulation: seeded operation histories against a lock-step reference model (dict / set partition), invariants after every operation, ddmin-minimised replay file",
-   level_text="Seeded exploration of operation histories on the real PriorityQueue (Cython/C++) and ComponentFinder with a reference model checked after every operation over the whole item domain; evidence, not proof. No faults are injected because this interface has none.",
+   level_text="Seeded exploration of operation histories on the real PriorityQueue (Cython/C++) and ComponentFinder (scalar/tuple/mixed-length/extreme scores passed as int, tuple, list or one-shot iterator; several live instances operated in turn) with a reference model checked after every operation over the whole item domain; evidence, not proof. No faults are injected because this interface has none.",
    level_note="Trusts the reference models (a dict and an explicit set partition, ~30 lines) and the caller contract (push only un-queued items, change_score only queued ones, merge(x,y) with x != y).",
    design_ref="DESIGN.md §4 C18"),
  "C09": dict(
    engine="histsim",
    technique="deterministic simulation: seeded histories of phase/unphase/re-phase runs over one variant file against an abstract phase-store model; what each run wrote is captured at the writer seam",
-   level_text="Seeded exploration of operation histories (phase with PS/HP tag, library, sample/chromosome subset; phase from a phased VCF; unphase) executed by the real whatshap code on generated worlds, with round-trip, no-mixing, isolation, PS/HP-equivalence and block-reproduction oracles evaluated after every operation.",
+   level_text="Seeded exploration of operation histories (phase with PS/HP tag, library, sample/chromosome subset, --only-snvs, --distrust-genotypes, rarely used algorithms and options, bcf/bgzip outputs, DEBUG logging; phase from a phased VCF; unphase), every operation a process of its own running the real whatshap code on generated worlds, with round-trip, no-mixing, isolation, PS/HP-equivalence and block-reproduction oracles evaluated after every operation; plus a regression corpus of minimised histories.",
    level_note="Trusts pysam/htslib for reading what was written, the world generator (error-free reads of known haplotypes) and the writer-seam capture (PhasedVcfWriter.write arguments) as the definition of 'the phase that was written'.",
    design_ref="DESIGN.md §4 C09"),
  "C13": dict(
    engine="histsim",
    technique="deterministic simulation: seeded histories of phase/unphase applications over VCFs of arbitrary call shapes against a record-level model of the file with phase stripped",
-   level_text="Seeded exploration: unphase is applied inside histories (after 0..n phase runs, twice in a row) to generated VCFs with haploid, polyploid, missing, partially missing and GT-less records; output compared field by field with an independent pysam-level model.",
+   level_text="Seeded exploration: unphase is applied inside histories (after 0..n phase runs, twice in a row) to generated VCFs with haploid, polyploid, missing, partially missing, mixed-separator and GT-less records, records without ALT, headers without (some) contig lines or without declarations of the phase tags, plain and bgzipped; output compared field by field with an independent pysam-level model and with the GT text; plus a regression corpus.",
    level_note="Trusts pysam/htslib parsing of both files and the generator's notion of 'well-formed VCF' (everything htslib reads without error).",
    design_ref="DESIGN.md §4 C13"),
  "C17": dict(
    engine="histsim",
    technique="deterministic simulation: seeded histories phase -> haplotag (-> re-haplotag) -> (partial) unphase -> haplotagphase over generated worlds, reference = the phasing that tagged the reads",
-   level_text="Seeded exploration of the four-subcommand pipeline on generated diploid worlds with error-free reads; every variant haplotagphase phases is compared with the original phased VCF (orientation and phase set), already phased variants must be byte-identical; proviso (reads spanning two phase sets) computed from the world.",
+   level_text="Seeded exploration of the four-subcommand pipeline (each step a process) on generated diploid worlds with error-free reads, linked reads, uncalled genotypes, pre-tagged BAMs, partially phased and harness-rendered tagging VCFs with arbitrary set ids; every variant haplotagphase phases is compared with the phased VCF that tagged the reads (orientation and phase set; set must exist in it; orientation must match the reads), already phased variants must be identical; proviso (reads or read clouds spanning two phase sets) computed from the world; plus a regression corpus.",
    level_note="Trusts the world generator (reads are exact copies of the true haplotypes), pysam, and the decoder VcfReader(phases=True) as observation point.",
    design_ref="DESIGN.md §4 C17"),
  "C16": dict(
    engine="nodesim",
-   technique="deterministic simulation: every scenario executed by several simulated runtime nodes (hash seed x worker-pool schedule under a seeded dispatcher x thread counts x clock faults x dirty-directory repetition) and compared record-for-record with a fault-free reference node",
-   level_text="Seeded search over runtime configurations and worker-pool schedules for every subcommand; all nodes' normalised outputs must equal the reference node's. Pool scheduling is owned by SimPool (real forked workers, seeded dispatch and delivery order), the clock by SimClock.",
-   level_note="Not behind a seam and therefore uncontrolled: htslib compression threads, the external cbc solver, memory addresses. Hash-seed sampling realises set orders jointly, not independently.",
-   design_ref="DESIGN.md §4 C16"),
+   technique="deterministic simulation: every scenario executed by several simulated runtime nodes (hash seed x worker-pool schedule under a seeded dispatcher x thread counts x clock faults x dirty-directory / second execution x process environment x --debug x file modification times) and compared record-for-record with a fault-free reference node",
+   level_text="Seeded search over runtime configurations and worker-pool schedules for every subcommand (90 verified command lines over the repo's own inputs plus generated worlds with ties and collisions); all nodes' normalised outputs and exit status must equal the reference node's. Pool scheduling (dispatch, delivery, ready()/timed-wait polling, concurrent.futures) is owned by SimPool with real forked workers, the clock and dates by SimClock; a regression corpus of minimised cases from 13 seeded changes and 4 repaired defects is replayed on every run.",
+   level_note="Not behind a seam and therefore uncontrolled: htslib compression threads (only their number is chosen), the external cbc solver, memory addresses (perturbed only as a side effect of node configuration). Hash-seed sampling realises set orders jointly, not independently. A scenario whose reference disagrees with its identically configured twin is re-run and reported only if the disagreement persists; node time-outs are inconclusive, never an alarm.",
+   design_ref="DESIGN.md §4 C16, §10, §12"),
 }
 
 BUILT = [l.strip() for l in open(os.path.join(HERE, "BUILT")).read().split() if l.strip()]
